@@ -140,3 +140,47 @@ def fresh_generator_check(acc, name, make):
         return
     if c2 is c1 or (len(n2.inputs), len(n2.outputs), len(n2.gates)) != shape1 or n2.out_tables() != t1:
         acc.violation(f'{name}/second-call-is-not-a-fresh-correct-circuit', case, f'first {shape1}, second {(len(n2.inputs), len(n2.outputs), len(n2.gates))}')
+
+
+def saturated_host(k):
+    """k inputs plus EVERY two-operand gate of every asymmetric/symmetric type over every ordered pair of
+    inputs, and one more layer over (XOR(a,b), input) in both orders: a host in which any gate a generator
+    is about to create probably already exists (possibly with swapped operands)."""
+    from cirbo.core.circuit import Circuit, gate as G
+
+    c = Circuit()
+    ins = [f'in{i}' for i in range(k)]
+    c.add_inputs(ins)
+    types = ('AND', 'OR', 'XOR', 'NAND', 'NOR', 'NXOR', 'GT', 'LT', 'GEQ', 'LEQ')
+    cnt = 0
+    xors = {}
+    for a in ins:
+        for b in ins:
+            if a == b:
+                continue
+            for t in types:
+                lab = f'h{cnt}'
+                cnt += 1
+                c.emplace_gate(lab, getattr(G, t), (a, b))
+                if t == 'XOR':
+                    xors[(a, b)] = lab
+    for (a, b), x in list(xors.items()):
+        for t in types:
+            for o in (a, b):
+                c.emplace_gate(f'h{cnt}', getattr(G, t), (x, o))
+                cnt += 1
+                c.emplace_gate(f'h{cnt}', getattr(G, t), (o, x))
+                cnt += 1
+    c.set_outputs([ins[0]])
+    return c, ins
+
+
+def odd_label_host(k):
+    """inputs whose labels are unusual but legal strings (empty label, digits, a generated-looking name)."""
+    from cirbo.core.circuit import Circuit
+
+    pool = ['', '0', 'new_', 'inf_label', '_PLACEHOLDER_STR_x', 'A b', 'zz', 'not_0', 'x@y']
+    labs = [pool[i] if i < len(pool) else f'in{i}' for i in range(k)]
+    c = Circuit()
+    c.add_inputs(labs)
+    return c, labs
